@@ -2,7 +2,16 @@
 open Model
 open Zconv
 
-type st = { mutable table : option_row list; mutable strs : z list list; mutable env : (z list * z list) list }
+type st = { mutable table : option_row list; mutable strs : z list list; mutable env : (z list * z list) list;
+            (* round 3: environment machine *)
+            mutable environ : z list list; mutable emap : (z list * z list) list;
+            (* round 3: Process object machine *)
+            child_code : int; mutable pobj : pobj; mutable world : world; mutable lst : lstate;
+            mutable death : int option;            (* wait status forced by a signal sent to the child *)
+            mutable leaky : bool;                  (* a noted leak may have happened: the reference no longer says how many descriptors are open *)
+            mutable signaled : int;                (* ProcessFramework::signaled: 0, -1 (flag), 1 (a dummy child was started to wake waitid) *)
+            mutable wait_state : int;              (* ProcessFramework::waitState: 2 once wait() went to waitid, until an interrupt is consumed *)
+            mutable next_fd : int; names : (int, string) Hashtbl.t; mutable next_name : int }
 
 let row_of s = match String.split_on_char ':' s with
   | [c; name; flags] ->
@@ -13,7 +22,12 @@ let row_of s = match String.split_on_char ':' s with
   | _ -> failwith ("bad table row " ^ s)
 
 (* case <n> T <char>:<name hex or ~>:<flags> ... *)
-let fresh cfg = { table = (match cfg with "T" :: rows -> List.map row_of rows | _ -> []); strs = []; env = [] }
+let fresh cfg =
+  { table = (match cfg with "T" :: rows -> List.map row_of rows | _ -> []); strs = []; env = [];
+    environ = []; emap = [];
+    child_code = (match cfg with "P" :: c :: _ -> int_of_string c | _ -> 0);
+    pobj = pobj0; world = world0; lst = LIdle; death = None; leaky = false; signaled = 0; wait_state = 0;
+    next_fd = 100; names = Hashtbl.create 16; next_name = 1 }
 
 let b2i b = if b then 1 else 0
 
@@ -92,6 +106,188 @@ let launch is_model st toks =
     end
   | _ -> failwith "bad launch op"
 
+
+(* ---- round 3: the process environment ------------------------------------------------------ *)
+let pairs_str l = if l = [] then "none" else String.concat "," (List.map (fun (k, v) -> hex_of_bytes k ^ ":" ^ hex_of_bytes v) l)
+let eq_z = z_of_int 61
+
+(* ev <entry>: one string of the initial ::environ *)
+let env_entry st e =
+  st.environ <- st.environ @ [e];
+  (match split_eq e with (k, Some v) -> st.emap <- em_put st.emap k v | (_, None) -> ())
+
+let env_get is_model st name dflt =
+  let v = if is_model then get_env_var name dflt st.environ else ref_get st.emap name dflt in
+  emit ("get " ^ hex_of_bytes v)
+
+let env_set is_model st name value =
+  if is_model then begin
+    let (ok, e) = set_env_var name value st.environ in
+    st.environ <- e;
+    emit (Printf.sprintf "set %d | %s" (b2i ok) (hexlist e))
+  end else begin
+    let (ok, m) = ref_set st.emap name value in
+    st.emap <- m;
+    (* the bool result of removing a variable (empty value) is not part of the property's statement *)
+    emit (if value = [] then "set ?" else Printf.sprintf "set %d" (b2i ok))
+  end
+
+let env_vars is_model st =
+  emit ("vars " ^ pairs_str (if is_model then get_env_vars st.environ else ref_vars st.emap))
+
+(* what a child started with an empty environment map sees: the strings of ::environ *)
+let env_child is_model st =
+  if is_model then
+    emit (Printf.sprintf "child %s | %s"
+            (hexlist (List.map (fun (k, v) -> k @ (eq_z :: v)) (get_env_vars st.environ))) (hexlist st.environ))
+  else emit ("child " ^ hexlist (List.map (fun (k, v) -> k @ (eq_z :: v)) (ref_vars st.emap)))
+
+(* ---- round 3: the Process object ------------------------------------------------------------- *)
+let name_of st fd =
+  if fd = 0 then "0" else
+  match Hashtbl.find_opt st.names fd with
+  | Some n -> n
+  | None -> let n = Printf.sprintf "f%d" st.next_name in st.next_name <- st.next_name + 1; Hashtbl.replace st.names fd n; n
+
+let ev_str st (e : kev) = match e with
+  | KPipe (r, w) -> let a = name_of st (int_of_z r) in let b = name_of st (int_of_z w) in "pipe:" ^ a ^ ":" ^ b
+  | KPipeFail -> "pipefail"
+  | KDup d -> "dup:" ^ name_of st (int_of_z d)
+  | KDupFail -> "dupfail"
+  | KClose fd -> let n = name_of st (int_of_z fd) in Hashtbl.remove st.names (int_of_z fd); "close:" ^ n
+  | KVfork _ -> "vfork"
+  | KVforkFail -> "vforkfail"
+  | KKill _ -> "kill"
+  | KWait (_, Some s) -> "wait:ok:" ^ string_of_int (int_of_z s)
+  | KWait (_, None) -> "wait:fail"
+  | KSelect -> "select"
+  | KRead fd -> "read:" ^ name_of st (int_of_z fd)
+  | KWrite fd -> "write:" ^ name_of st (int_of_z fd)
+
+let res_str (r : pres) = match r with
+  | RRefused -> "refused"
+  | RBool b -> if b then "1" else "0"
+  | RJoin c -> "1:" ^ string_of_int (int_of_z c)
+  | RIo n -> let n = int_of_z n in if n > 0 then "data" else if n = 0 then "eof" else "err"
+  | RIo2 (n, s) -> let n = int_of_z n in (if n > 0 then "data" else if n = 0 then "eof" else "err") ^ ":" ^ string_of_int (int_of_z s)
+  | RUnit -> "-"
+
+let rec drop n l = if n <= 0 then l else match l with [] -> [] | _ :: t -> drop (n - 1) t
+
+(* the kernel's answers, as the harness arranges them: fresh descriptors; injected failures;
+   with `fd0` the parent's descriptor 0 is closed, so every pipe() hands out 0 as its read end *)
+let pobj_op is_model st opname (args : string list) =
+  let has f = List.mem f args in
+  let fresh () = let n = st.next_fd in st.next_fd <- n + 1; z_of_int n in
+  let streams = (match args with s :: _ when opname = "popen" || opname = "pclose" || opname = "pread2" -> int_of_string s | _ -> 0) in
+  let wait_ans () =
+    if has "waitfail" then None
+    else Some (z_of_int (match st.death with Some sg -> sg | None -> if opname = "pkill" then 9 else st.child_code * 256)) in
+  let op : pop = match opname with
+    | "popen" ->
+      let nth_req = ref 0 in
+      let ans bit =
+        if streams land bit = 0 then { pa_res = None; pa_dup = None }
+        else begin
+          incr nth_req;
+          if has (Printf.sprintf "pipefail%d" !nth_req) then { pa_res = None; pa_dup = None }
+          else if has "fd0" then
+            let w = fresh () in
+            { pa_res = Some (z_of_int 0, w); pa_dup = (if has "dupfail" then None else Some (fresh ())) }
+          else let r = fresh () in let w = fresh () in { pa_res = Some (r, w); pa_dup = None }
+        end in
+      let a1 = ans 1 in let a2 = ans 2 in let a3 = ans 4 in
+      POpen (z_of_int streams, a1, a2, a3, (if has "vforkfail" then None else Some (z_of_int 4242)))
+    | "pstart" -> PStart (if has "vforkfail" then None else Some (z_of_int 4242))
+    | "pjoin" | "pjoin0" -> PJoin (wait_ans ())
+    | "pkill" -> PKill (wait_ans ())
+    | "pdel" -> PDestroy (wait_ans ())
+    | "pclose" -> PClose (z_of_int streams)
+    | "pread" -> PRead (z_of_int 1)
+    | "pread2" ->
+      (* stdout (the child's header) is readable whenever it is open and asked for; otherwise stderr
+         reports end-of-file once the child is gone *)
+      let out_open = (match st.lst with LRunning (_, o, _, _) -> o | LIdle -> false) in
+      if streams land 1 <> 0 && out_open then PRead2 (z_of_int streams, z_of_int 1, z_of_int 1)
+      else PRead2 (z_of_int streams, z_of_int 2, z_of_int 0)
+    | "pwrite" -> PWrite (z_of_int (match args with n :: _ -> int_of_string n | [] -> 1))
+    | "prun" -> PIsRunning
+    | _ -> failwith ("bad process op " ^ opname) in
+  (* the reference state is advanced in both modes: the answers above look at it *)
+  let before_lst = st.lst in
+  let (lr, lst') = lstep st.lst op in
+  (* a SIGKILL that was sent stays sent, whether or not the wait that follows succeeds *)
+  (if opname = "pkill" && st.lst <> LIdle && st.death = None then st.death <- Some 9);
+  (* a new child: nothing has been sent to it yet *)
+  (if st.lst = LIdle && lst' <> LIdle then st.death <- None);
+  st.lst <- lst';
+  let running l = (match l with LIdle -> 0 | LRunning _ -> 1) in
+  (* join() without arguments does not hand out the exit code *)
+  let res_text r = if opname = "pjoin0" then (match r with RJoin _ -> "1" | _ -> res_str r) else res_str r in
+  (* noted, outside the statement: after open() with a failing vfork or a destructor whose join fails
+     descriptors may stay open; read(buffer, length)/write() without their stream go to descriptor 0 *)
+  (if (opname = "popen" && has "vforkfail" && before_lst = LIdle) || (opname = "pdel" && has "waitfail" && before_lst <> LIdle)
+   then st.leaky <- true);
+  let stream_open = (match before_lst, opname with
+      | LRunning (_, o, _, _), "pread" -> o
+      | LRunning (_, _, _, i), "pwrite" -> i
+      | LIdle, ("pread" | "pwrite") -> false
+      | _ -> true) in
+  if is_model then begin
+    let before = List.length st.world.w_log in
+    let ((r, s'), w') = pstep op st.pobj st.world in
+    st.pobj <- s'; st.world <- w';
+    let new_evs = drop before w'.w_log in
+    (* descriptor 0 of the harness is a scratch file of 64 bytes: a read takes them all, a write of n bytes moves n *)
+    let in0 = List.fold_left (fun a (e : kev) -> match e with
+        | KRead fd when int_of_z fd = 0 -> 64
+        | KWrite fd when int_of_z fd = 0 -> (match args with n :: _ -> int_of_string n | [] -> 1)
+        | _ -> a) 0 new_evs in
+    let evs = List.map (ev_str st) new_evs in
+    let nzb x = if int_of_z x <> 0 then 1 else 0 in
+    emit (Printf.sprintf "%s %s run %d held %d stray %d in0 %d | out=%d err=%d in=%d | %s" opname (res_text r)
+            (nzb s'.p_pid) (List.length w'.w_fds) (List.length w'.w_stray) in0
+            (nzb s'.p_out) (nzb s'.p_err) (nzb s'.p_in)
+            (if evs = [] then "-" else String.concat "," evs))
+  end else
+    emit (Printf.sprintf "%s %s run %d held %s stray 0 in0 %s" opname (if stream_open then res_text lr else "?") (running lst')
+            (if st.leaky then "?" else string_of_int (int_of_nat (lheld lst'))) (if stream_open then "0" else "?"))
+
+(* Process::wait(&object, 1) / Process::interrupt(): not part of the Coq model; what is expected is worked out here
+   from the code's two static variables (both modes print the same result).  interrupt(): when no interrupt is
+   pending, either sets the flag (-1) or - when an earlier wait() left waitState at 2 - starts a dummy child whose
+   end wakes waitid.  wait(): a pending flag is consumed and 0 returned; a pending dummy child is reaped and 0
+   returned; otherwise waitid(WNOWAIT) reports the object once its child has ended (it stays un-reaped), or fails
+   (no child at all) and 0 is returned. *)
+let pobj_wait is_model st opname =
+  let log = ref "-" in
+  let r = (match opname with
+      | "pintr" ->
+        (if st.signaled = 0 then
+           (if st.wait_state = 2 then (st.signaled <- 1; log := "vfork") else st.signaled <- -1));
+        "-"
+      | _ ->
+        if st.signaled = -1 then (st.signaled <- 0; "0")
+        else if st.signaled = 1 then (st.signaled <- 0; st.wait_state <- 0; log := "wait:ok:0"; "0")
+        else (st.wait_state <- 2; if st.lst <> LIdle then "1" else "0")) in
+  let running = (match st.lst with LIdle -> 0 | LRunning _ -> 1) in
+  if is_model then begin
+    let s = st.pobj and w = st.world in
+    let nzb x = if int_of_z x <> 0 then 1 else 0 in
+    emit (Printf.sprintf "%s %s run %d held %d stray %d in0 0 | out=%d err=%d in=%d | %s" opname r (nzb s.p_pid)
+            (List.length w.w_fds) (List.length w.w_stray) (nzb s.p_out) (nzb s.p_err) (nzb s.p_in) !log)
+  end else
+    emit (Printf.sprintf "%s %s run %d held %s stray 0 in0 0" opname r running
+            (if st.leaky then "?" else string_of_int (int_of_nat (lheld st.lst))))
+
+(* split(join(words)) = words : the reference side of the round trip is the word list itself *)
+let roundtrip is_model joined words =
+  let ws = List.map bytes_of_hex words in
+  if join_words_bs ws <> bytes_of_hex joined then emit "! bad-join"
+  else if is_model then (match split_model (join_words_bs ws) with
+      | Ok r -> emit (words_str r) | Oob -> emit "! oob" | Fuel -> emit "! timeout")
+  else emit (words_str ws)
+
 let on_op is_model st _ toks =
   (match toks with
    | ["s"; h] -> st.strs <- st.strs @ [bytes_of_hex h]
@@ -106,6 +302,16 @@ let on_op is_model st _ toks =
          | Ok ws -> emit (words_str ws) | Oob -> emit "! oob" | Fuel -> emit "! timeout")
      else emit (words_str (split_ref (bytes_of_hex h)))
    | "launch" :: _ -> launch is_model st toks
+   | "rt" :: joined :: words -> roundtrip is_model joined words
+   | ["ev"; e] -> env_entry st (bytes_of_hex e)
+   | ["eget"; n; d] -> env_get is_model st (bytes_of_hex n) (bytes_of_hex d)
+   | ["eset"; n; v] -> env_set is_model st (bytes_of_hex n) (bytes_of_hex v)
+   | ["evars"] -> env_vars is_model st
+   | ["echild"] -> env_child is_model st
+   | ["psig"; sg] -> st.death <- (match st.death with None -> Some (int_of_string sg) | d -> d)
+   | [("pwait" | "pintr") as o] -> pobj_wait is_model st o
+   | o :: args when String.length o > 1 && o.[0] = 'p' && List.mem o ["popen"; "pstart"; "pjoin"; "pjoin0"; "pkill"; "pdel"; "pclose"; "pread"; "pread2"; "pwrite"; "prun"] ->
+     pobj_op is_model st o args
    | _ -> failwith ("bad op: " ^ String.concat " " toks));
   st
 
